@@ -350,6 +350,17 @@ func (w *c10World) genAttack(t *rapid.T, s *Sim) *Action {
 			a.PayDid = w.sponsor
 			a.Extra["legitCreator"], a.Extra["legitProv"] = fmt.Sprint(s.Dids[w.sponsor].Acct), fmt.Sprint(w.gateway)
 			a.Extra["variant"] = "names-sponsor-not-submitted-by-it"
+			switch rapid.IntRange(0, 2).Draw(t, "sponsorCraft") {
+			case 1:
+				// msg.Provider merely *names* the sponsor's address
+				a.MsgProv = s.Dids[w.sponsor].Acct
+				a.Extra["variant"] = "names-sponsor-claims-sponsor-address"
+			case 2:
+				// the attacker's own proposal (its own DID as owner), sponsor named as payer and as msg.Provider
+				a.Owner, a.Signer = att, att
+				a.MsgProv = s.Dids[w.sponsor].Acct
+				a.Extra["variant"] = "own-proposal-names-sponsor-claims-sponsor-address"
+			}
 		}
 		return a
 	default:
